@@ -16,6 +16,9 @@ import TTModel.Manifold
 import TTModel.Decomp
 import TTModel.DecompM
 import TTModel.NormQR
+import TTModel.DecompR
+import TTModel.PermuteM
+import TTModel.ReshapeM
 import TTModel.Permute
 import TTModel.Reshape
 import TTModel.Scalar
@@ -446,6 +449,24 @@ def run : PM String := do
       let (isM, x) ← tt
       let v := if isM then Decomp.normSqQRM GRat.conj (Decomp.idOracle 1000000) x else Decomp.normSqQR GRat.conj (Decomp.idOracle 1000000) x
       pure s!"sc {v}"
+  | "tottr" => do
+      let caps ← natList; let (dims, f) ← dense
+      let total := dims.foldl (· * ·) 1
+      let A : Nat → S := fun j => f (unflat dims j total)
+      pure (showTT false ((Decomp.toTTR (Decomp.idOracle 1000000) caps dims A).map freeze))
+  | "mattottr" => do
+      let caps ← natList; let M ← natList; let N ← natList; let (dims, f) ← dense
+      let total := dims.foldl (· * ·) 1
+      let A : Nat → S := fun j => f (unflat dims j total)
+      pure (showTT true ((Decomp.toTTMR (Decomp.idOracle 1000000) caps M N A).map freeze))
+  | "permutettm" => do
+      let cap ← nat; let dims ← natList; let (_, x) ← tt
+      pure (showTT true (Permute.permuteTTMWith freeze (Decomp.idOracle 1000000) (Decomp.idOracle cap) dims x))
+  | "reshapettm" => do
+      let cap ← nat; let k ← nat; let dst ← many k (do let m ← nat; let n ← nat; pure (m, n)); let (_, x) ← tt
+      match Reshape.reshapeTTMWith freeze (Decomp.idOracle 1000000) (Decomp.idOracle cap) dst.toList x with
+      | some r => pure (showTT true (r.map freeze))
+      | none => pure "none"
   | "lrorth" => do
       let (_, x) ← tt
       pure (showTT false ((Decomp.lrOrth (Decomp.idOracle 1000000) x).map freeze))
